@@ -293,6 +293,31 @@ def run_case(case):
                 viol("duplicate-scale-keys", f"after regeneration from own output: {k2[:8]}")
         except Exception as exc:  # noqa: BLE001
             viol("regeneration-from-own-output-raised", f"{type(exc).__name__}: {exc}")
+        # ... and an input that lists several scales in another order: "only the first one
+        # will be used" (documented), whichever is the finest
+        if not v and len(sc) >= 2 and case["size"][1] % 3 == 0:
+            try:
+                rev = copy.deepcopy(out)
+                rev["scales"].reverse()
+                first = copy.deepcopy(rev["scales"][0])
+                alone = copy.deepcopy(out)
+                alone["scales"] = [first]
+                want_geo = [(s["size"], s["resolution"], s["chunk_sizes"]) for s in
+                            dyadic_pyramid.fill_scales_for_dyadic_pyramid(
+                                alone, target_chunk_size=T, max_scales=ms)["scales"]]
+                got_geo = [(s["size"], s["resolution"], s["chunk_sizes"]) for s in
+                           dyadic_pyramid.fill_scales_for_dyadic_pyramid(
+                               rev, target_chunk_size=T, max_scales=ms)["scales"]]
+                obs["multi_scale_inputs_not_finest_first"] = 1
+                if got_geo != want_geo:
+                    viol("pyramid-not-built-from-the-first-scale-of-the-input",
+                         f"input scales listed coarsest first: pyramid starts at size "
+                         f"{got_geo[0][0] if got_geo else None}, the first input scale has "
+                         f"{first['size']}")
+            except AssertionError:
+                pass        # recorded mechanisms of the generator (excess anisotropy)
+            except Exception as exc:  # noqa: BLE001
+                viol("generator-raised", f"multi-scale input: {type(exc).__name__}: {exc}")
     # level 0
     s0 = sc[0]
     if s0["size"] != list(size) or [Fraction(x) for x in s0["resolution"]] != \
@@ -460,6 +485,8 @@ def gates(obs, tier):
         "fractional_resolutions": obs.get("fractional_resolution", 0) > 100,
         "encoder_checks": obs.get("encoder_checks", 0) > 1000,
         "inherited_encodings": obs.get("inherited_encoding", 0) > 50,
+        "multi_scale_inputs_not_finest_first": obs.get(
+            "multi_scale_inputs_not_finest_first", 0) > 50,
         "numpy_integer_targets": obs.get("numpy_integer_target", 0) > 100,
         "prefilled_full_resolution_scales": obs.get("prefilled_key_or_chunk_sizes", 0) > 100,
         "regenerated_from_own_output": obs.get("regenerated_from_own_output", 0) > 100,
